@@ -16,6 +16,7 @@ pub fn harnesses() -> Vec<Harness> {
         Harness { name: "c08_farthest", property: "C08", f: c08_farthest, about: "set_farthest_on_full drops everything farther than the new farthest and never widens" },
         Harness { name: "c08_progress", property: "C08", f: c08_progress, about: "bounded liveness: an in-range key advertised every round by a responsive holder is fetched within 2 rounds (4 keys, limit 3)" },
         Harness { name: "c09_range_follows", property: "C09", f: c09_range_follows, about: "the fetcher filters advertisements with the responsible range currently in force, whether it grew or shrank since it was first set" },
+        Harness { name: "c08_running_fetch_not_repeated", property: "C08", f: c08_running_fetch_not_repeated, about: "two versions of a key are being fetched; one arrives and is stored; the other, still running, is advertised again: it is not requested a second time" },
         Harness { name: "c09_two_versions_both_fetched", property: "C09", f: c09_two_versions_both_fetched, about: "two neighbours advertise different versions of a key that is not held while the fetcher is saturated; as slots free up one at a time each neighbour is asked for its version" },
         Harness { name: "c09_divergent_version", property: "C09", f: c09_divergent_version, about: "a key held locally with version T1 and advertised with version T2 != T1 is scheduled or queued" },
     ]
@@ -606,6 +607,45 @@ fn c08_progress() {
 }
 
 // ------------------------------------------------------------------ C09 (c)
+
+fn c08_running_fetch_not_repeated() {
+    set_clock_frozen(true);
+    let mut fx = new_fetcher();
+    let _ = Instant::now();
+    let ty = types();
+    let k = key(0);
+    let mut local: HashMap<RecordKey, (NetworkAddress, RecordType)> = HashMap::new();
+    let single = choice(2) == 1;
+    let adv = |t: &RecordType, extra: u8| {
+        let mut v = vec![(NetworkAddress::from_record_key(&key(0)), t.clone())];
+        if !single {
+            v.push((NetworkAddress::from_record_key(&key(extra)), RecordType::Chunk));
+        }
+        v
+    };
+    // every request the fetcher hands out, in order (the clock stands still: nothing times out)
+    let mut requests: Vec<(PeerId, RecordKey)> = vec![];
+    // neighbour A advertises version T1 of k, neighbour B version T2
+    requests.extend(fx.f.add_keys(peer(1), adv(&ty[1], 1), &local));
+    requests.extend(fx.f.add_keys(peer(2), adv(&ty[2], 2), &local));
+    let t1_requested = requests.iter().any(|(p, kk)| *p == peer(1) && *kk == k);
+    if !t1_requested {
+        // the slot went to the other key of A's list: not the situation of interest
+        symrt::prune();
+    }
+    // version T1 arrives and is stored; a freed slot may go to what is queued (possibly T2 from B)
+    requests.extend(fx.f.notify_about_new_put(k.clone(), ty[1].clone()));
+    local.insert(k.clone(), (NetworkAddress::from_record_key(&k), ty[1].clone()));
+    let t2_before = requests.iter().filter(|(p, kk)| *p == peer(2) && *kk == k).count();
+    // B's periodic replication advertises T2 again while B's answer to the first request is still on its way
+    requests.extend(fx.f.add_keys(peer(2), adv(&ty[2], 2), &local));
+    let t2_after = requests.iter().filter(|(p, kk)| *p == peer(2) && *kk == k).count();
+    note(format!("single_key_lists={single} requests for T2 before/after the second advertisement: {t2_before}/{t2_after}"));
+    cover("readvertised");
+    if t2_before == 1 { cover("t2_was_running"); }
+    // T2 has neither arrived nor timed out: it is requested at most once
+    check_bool("running:version_being_fetched_is_not_requested_again", t2_after <= 1);
+}
 
 fn c09_two_versions_both_fetched() {
     set_clock_frozen(true);
